@@ -480,6 +480,26 @@ pub fn run(args: &Args) -> Report {
         }
     }
 
+    // 4b. tag values over the BMP (every 16th scalar and the encoding boundaries; thorough: all), literal and escaped
+    if sample.is_none() {
+        let stride = if thorough { 1 } else { 16 };
+        for c in (0u32..=0xFFFF).filter(|c| c % stride == 0 || [0x7f, 0x80, 0x7ff, 0x800, 0xd7ff, 0xe000, 0xffff].contains(c)) {
+            if let Some(ch) = char::from_u32(c) {
+                let f = SemFilter { tags: vec![("t".into(), vec![format!("{ch}"), format!("x{ch}y")])], ..SemFilter::empty() };
+                for esc in [Esc::Minimal, Esc::AllULower] {
+                    let mut r = FilterRender::plain(&f);
+                    r.esc = esc;
+                    let (text, _) = render_filter(&f, &r, &mut rng);
+                    let end = text.len();
+                    if let Some(p) = check_in_domain(&mut rep, &text, "tag-value-scalar", end) {
+                        check_roundtrip(&mut rep, &p.bytes, Some(&f), "parsed");
+                    }
+                }
+                rep.count("scalar_sweep_filters");
+            }
+        }
+    }
+
     // 5. random filters: faithful parse, round trip from the parser and from parts, trailing bytes
     let n = sample.unwrap_or(if thorough { 150_000 } else { 3_000 });
     for k in 0..n {
